@@ -7,18 +7,19 @@ P=$1; K=$2; shift; shift
 V=$(pwd); WT=/tmp/mut-$P-$K
 cd $WT || exit 2
 # bring the worktree to /repo's current HEAD (fix commits made since it was created), keeping the change
-if [ "$(git rev-parse HEAD)" != "$(git -C /repo rev-parse HEAD)" ]; then
-  git stash -q && git checkout -q --detach $(git -C /repo rev-parse HEAD) && git stash pop -q || { echo "  $P-$K: change does not carry over to /repo HEAD"; exit 3; }
-fi
+# (no git stash: the stash is shared by all worktrees of a repository)
 git diff -- . ':!mutdemo' > /tmp/mut-$P-$K.diff
+if [ "$(git rev-parse HEAD)" != "$(git -C /repo rev-parse HEAD)" ]; then
+  git apply -R /tmp/mut-$P-$K.diff && git checkout -q --detach $(git -C /repo rev-parse HEAD) && git apply /tmp/mut-$P-$K.diff || { echo "  $P-$K: change does not carry over to /repo HEAD"; exit 3; }
+fi
 [ -s /tmp/mut-$P-$K.diff ] || { echo "  no source change in $WT"; exit 2; }
 echo "== $P-$K: $(git diff --stat -- . ':!mutdemo' | tail -1)"
 run_demo() { (go test -vet=off -count=1 -tags "mutdemo integration verif" ./mutdemo/... 2>&1; [ -f mutdemo/main.go ] && go run -tags "mutdemo integration" ./mutdemo 2>&1) | grep -E "^(--- |ok|FAIL|PASS|VIOLATION|panic)" | head -4 | tr '\n' ' '; }
 echo -n "  build+baseline with change: "; (go build ./... && go test -vet=off -count=1 $(go list ./... | grep -v mutdemo) 2>&1 | grep -c "^ok") | tr '\n' ' '; echo
 echo -n "  demo with change: "; run_demo; echo
-git stash -q -- $(git diff --name-only -- . ':!mutdemo')
+git apply -R /tmp/mut-$P-$K.diff
 echo -n "  demo without change: "; run_demo; echo
-git stash pop -q
+git apply /tmp/mut-$P-$K.diff
 cd $V
 (cd harness && go mod edit -replace github.com/richiefi/rrrouter=$WT)
 for c in "$@"; do
